@@ -313,7 +313,7 @@ struct Cfg
   std::vector<POp> ops;
   bool probe{true};
   bool sc{false};
-  size_t passes{2};
+  size_t passes{2}, extra{0};
   std::vector<POp> ops2; // second frontend thread (whole-system variant)
 };
 static Cfg g_cfg;
@@ -878,7 +878,7 @@ struct SysHarness
     for (auto const& o : ops)
     {
       if (W->abort_exec) return;
-      if (o.kind == 'r' || (o.kind == 'l' && !registered_of[me]))
+      if (o.kind == 'r' || ((o.kind == 'l' || o.kind == 'f') && !registered_of[me]))
       {
         // what the first log call of a thread does (get_local_thread_context): construct the thread's scoped context
         stc_of[me] = new quill::detail::ScopedThreadContext(SysOpt::queue_type, SysOpt::initial_queue_capacity, SysOpt::unbounded_queue_max_capacity, SysOpt::huge_pages_policy);
@@ -895,6 +895,19 @@ struct SysHarness
         else
           ++refused;
       }
+      else if (o.kind == 'f')
+      {
+        lg->flush_log();
+        if (W->abort_exec) return;
+        // at this instant every statement this thread logged before is at the sink
+        size_t got = 0;
+        std::string const pre = "m" + std::to_string(me) + ".";
+        for (auto const& r : recs)
+          if (r.rfind(pre, 0) == 0) ++got;
+        if (got != logged_of[me].size())
+          fail("flush-returned-before-statement-written", "flush_log() of thread " + std::to_string(me) + " returned with " + std::to_string(got) + " of its " +
+                                                           std::to_string(logged_of[me].size()) + " earlier statements at the sink");
+      }
       else if (o.kind == 'x' && registered_of[me])
       {
         // thread exit: the thread-local scoped context is destroyed (a later l / r is the first use of a new thread)
@@ -907,9 +920,43 @@ struct SysHarness
   }
   void producer() { frontend(1, g_cfg.ops); }
   void producer2() { frontend(3, g_cfg.ops2); }
+  // a frontend that waits for the backend (flush_log, a full blocking queue) and cannot go on by itself
+  // (only when NO frontend can run: a frontend spinning on a lock another frontend holds is waiting for that one, not for the
+  // backend)
+  static bool frontend_needs_backend()
+  {
+    bool any = false;
+    for (int t : {1, 3})
+    {
+      if (t >= MAXT || W->th[t].finished) continue;
+      if (!(W->th[t].blocked && !wake_possible(W->th[t]))) return false;
+      any = true;
+    }
+    return any;
+  }
+  static bool frontends_finished()
+  {
+    for (int t : {1, 3})
+      if (t < MAXT && !W->th[t].finished) return false;
+    return true;
+  }
   void consumer()
   {
     for (size_t i = 0; i < g_cfg.passes && !W->abort_exec; ++i) bw->_poll();
+    // afterwards the backend keeps polling only for as long as a frontend is waiting for it (at most `extra` more polls: a
+    // correct backend serves a waiting frontend within two; a frontend still waiting after them is reported as a deadlock)
+    W->custom_wake = [] { return frontend_needs_backend() || frontends_finished(); };
+    W->th[2].latest_only = true; // a store becomes visible in finite time: the on-demand polls see the latest values
+    for (size_t extra = 0; extra < g_cfg.extra && !W->abort_exec; ++extra)
+    {
+      if (!frontend_needs_backend())
+      {
+        if (frontends_finished()) break;
+        block_on_custom_condition();
+        if (W->abort_exec || frontends_finished()) break;
+      }
+      bw->_poll();
+    }
   }
   void probe()
   {
@@ -1052,6 +1099,8 @@ static ExecResult run_one_inner(std::vector<int> const& prefix)
     cur = en[c];
     W->cur = cur;
     if (g_on_switch) g_on_switch(cur);
+    static bool const trace_on = getenv("VF_TRACE") != nullptr;
+    (void)trace_on;
     swapcontext(&W->main_ctx, &W->th[cur].ctx);
     W->cur = 0;
   }
@@ -1065,7 +1114,11 @@ static ExecResult run_one_inner(std::vector<int> const& prefix)
     for (int t = 1; t < MAXT; ++t)
       if (!W->th[t].finished) who += (t == 2 ? "consumer " : "producer ");
     // a producer that can never be served although the consumer has consumed everything is the C09 verdict
-    fail("deadlock", "no thread can make progress: " + who + "blocked (a fitting record is never granted / a committed record never becomes visible)");
+    if (g_cfg.mode.rfind("sys", 0) == 0)
+      fail("frontend-waits-for-ever", "a frontend call (flush_log / a blocking log call / a spinlock) never returns although the backend polled " + std::to_string(g_cfg.extra) +
+                                        " more times while it was waiting: " + who + "blocked");
+    else
+      fail("deadlock", "no thread can make progress: " + who + "blocked (a fitting record is never granted / a committed record never becomes visible)");
   }
   if (!W->violation && all_done && g_cfg.probe)
   {
@@ -1123,7 +1176,7 @@ static std::string cfg_string()
   {
     std::string o2;
     for (auto const& o : g_cfg.ops2) o2 += (o2.empty() ? "" : ",") + std::string(1, o.kind) + std::to_string(o.n);
-    return "mode=" + g_cfg.mode + " sc=" + std::to_string(g_cfg.sc ? 1 : 0) + " passes=" + std::to_string(g_cfg.passes) + " ops=" + ops + (o2.empty() ? "" : " ops2=" + o2);
+    return "mode=" + g_cfg.mode + " sc=" + std::to_string(g_cfg.sc ? 1 : 0) + " passes=" + std::to_string(g_cfg.passes) + " extra=" + std::to_string(g_cfg.extra) + " ops=" + ops + (o2.empty() ? "" : " ops2=" + o2);
   }
   if (false) return "mode=" + g_cfg.mode + " sc=" + std::to_string(g_cfg.sc ? 1 : 0) + " passes=" + std::to_string(g_cfg.passes) + " ops=" + ops;
   return "mode=unbounded initial=" + std::to_string(g_cfg.initial) + " max=" + std::to_string(g_cfg.maxcap) + " ops=" + ops;
@@ -1280,6 +1333,7 @@ int main(int argc, char** argv)
   g_cfg.probe = a.geti("--probe", 1) != 0;
   g_cfg.sc = a.geti("--sc", 0) != 0;
   g_cfg.passes = static_cast<size_t>(a.geti("--passes", 2));
+  g_cfg.extra = static_cast<size_t>(a.geti("--extra", 0));
   {
     std::string s2 = a.get("--ops2", "");
     size_t p2 = 0;
